@@ -12,6 +12,7 @@ import (
 	"sync/atomic"
 	"testing"
 
+	"github.com/scigolib/hdf5/internal/core"
 	"github.com/scigolib/hdf5/internal/verif/vkit"
 )
 
@@ -526,11 +527,28 @@ func vfC09Corpus(r *vkit.Run, total *int64) {
 			ok := false
 			func() {
 				defer func() { recover() }()
-				v, err := d.Read()
 				maxElems := 256
 				if r.Thorough() {
 					maxElems = 4096
 				}
+				// the extent first, from the dataspace message: a full read of a dataset that is
+				// too large anyway would only cost memory
+				if hdr, err := core.ReadObjectHeader(d.file.osFile, d.address, d.file.sb); err == nil {
+					if di, err := core.ReadDatasetInfo(hdr, d.file.sb); err == nil && di.Dataspace != nil {
+						n := uint64(1)
+						for _, x := range di.Dataspace.Dimensions {
+							if x != 0 && n > (1<<40)/x {
+								n = 1 << 40
+								break
+							}
+							n *= x
+						}
+						if n > uint64(maxElems) {
+							return
+						}
+					}
+				}
+				v, err := d.Read()
 				if err != nil || len(v) == 0 || len(v) > maxElems {
 					return
 				}
